@@ -64,6 +64,27 @@ def with_tf(tf, fn):
         dadi.Integration.timescale_factor = old
 
 
+def coincident_events(prog):
+    """True if the program puts two events on the same deme at the same instant in a way a demes graph cannot order: a pulse, or the start of
+    a frozen (= ancient-sample) branch, with no integration of positive length since the last split / admixture (reordering and removal
+    take no time)"""
+    created = False          # a deme was created since the last integration of positive length
+    frozen_before = False
+    for op in prog:
+        if op[0] in ('split', 'admix_new'):
+            created = True
+        elif op[0] == 'pulse':
+            if created:
+                return True
+        elif op[0] == 'int' and op[1] > 0:
+            now_frozen = any(op[6])
+            if created and now_frozen and not frozen_before:
+                return True
+            frozen_before = now_frozen
+            created = False
+    return False
+
+
 def case_program(col, p):
     import dadi
     pts = p['pts']
@@ -73,8 +94,8 @@ def case_program(col, p):
         d_end = PR.dim_after(prog)
         ns = NSAMP[:d_end]
         info = dict(kind='program', pts=pts, programs=[prog], export=p.get('export', True))
-        if any(a[0] in ('split', 'admix_new') and b[0] == 'pulse' for a, b in zip(prog, prog[1:])):
-            col.tick(untranslatable=1)       # a pulse at the very instant a deme is created: event order is not defined by a graph
+        if coincident_events(prog):
+            col.tick(untranslatable=1)       # a pulse or an ancient sample at the very instant a deme is created: event order is not defined by a graph
             continue
         # frozen populations are ancient samples; dadi's front end gives the frozen branch size 1/Ne (one individual), which enters the time-step
         # rule: use the same size natively so that both runs take identical steps
@@ -108,6 +129,9 @@ def case_program(col, p):
                     if "'epochs' must be a non-empty list" in str(e) and any(k in site for k in ('consecutive_splits', 'split_then_remove', 'split_then_reorder')):
                         # one failure class whatever the dimension / other features: a deme that exists for zero time (two structural changes in a row)
                         site = 'zero_length_deme'
+                    elif 'is not in list' in str(e) and any(op[0] == 'admix_new' and any(0 < f < 1 for f in list(op[1]) + [1 - sum(op[1])]) for op in prog):
+                        # one failure class: a model with a genuine admixture event (new population drawn from two or more parents)
+                        site = 'admixture_event_not_reimportable'
                     col.violation('C16:export:%s' % site, dict(info, Nref=Nref, generation_time=gt), '%s: %s' % (type(e).__name__, str(e)[:300]))
                     continue
                 col.tick(transitions=2)
@@ -146,6 +170,15 @@ def case_program(col, p):
             ok, errs = agree_or_ladder(err, lambda: with_tf(1e-4, lambda: relerr(sfs(g, live, ns, pts, sample_times=times),
                                                                                   np.asarray(PR.run(prog + [['sample', ns]], xx).data))))
             col.tick(transitions=1 if len(errs) == 1 else 3)
+            if not ok and st and err <= 2e-3:
+                # an ancient sample: the graph is sliced at the sample time, the native program keeps integrating the other populations next to the
+                # frozen one; the two are different discretisations of the same model (the frozen marginal's boundary value keeps collecting new
+                # mutations of the evolving populations), so the difference is a GRID error: it must shrink when the grid is refined
+                xx2 = dadi.Numerics.default_grid(2 * pts)
+                err_fine = relerr(sfs(g, live, ns, 2 * pts, sample_times=times), np.asarray(PR.run(prog + [['sample', ns]], xx2).data))
+                col.tick(transitions=2, agreement_only_on_grid_ladder=1)
+                errs = errs + [err_fine]
+                ok = err_fine <= 0.6 * err
             if not ok:
                 col.violation('C16:Demes.SFS:%s' % import_site(prog, st), dict(info, style=style), {'relerr_by_step': errs})
                 continue
